@@ -406,6 +406,22 @@ class Check:
             raise MachineryError("binding control: %s accepted every corrupted event in 3 draws (%s)" % (module, label))
         rec["%s/%s" % (module, label or "t")] = {"inconclusive": "corrupted events left the domain of the trace operators"}
 
+    def leg(self, module, fn, jobs, batch=64, stat=None, **kw):
+        """Memory-bounded leg: pmap `fn` over `jobs` in batches, judge each batch's events at once, drop them.
+        `fn(job)` returns a list of events; `stat(events)` (optional) returns a number summed over batches.
+        Returns (events judged, sum of stat)."""
+        n = tot = 0
+        for off in range(0, len(jobs), batch):
+            parts = pmap(fn, jobs[off:off + batch])
+            evs = [e for p in parts for e in p]
+            del parts
+            if stat is not None:
+                tot += stat(evs)
+            n += len(evs)
+            self.validate(module, evs, **kw)
+            del evs
+        return n, tot
+
     # ---------------------------------------------------------------- findings
     def report(self, module, ev, clause, key=None, describe=None):
         """Register a rejected event.  `key` (a string) is matched against the known-findings file."""
